@@ -94,7 +94,7 @@ package limit
 //@   requires [C04] PACE(dsc)
 //@   requires [C04] gBatch < dsc.opts.Limit.Quantity
 //@   modifies gOutN, gBatch
-//@   ensures [*] gOutN == old(gOutN) + 1 && gBatch == old(gBatch) + 1
+//@   ensures [* C04 C12] gOutN == old(gOutN) + 1 && gBatch == old(gBatch) + 1
 
 //@ func (*Discipline).pass
 //@   requires [*] WF(dsc)
@@ -103,12 +103,12 @@ package limit
 //@   requires [C12] gInN == gOutN && !gClosed
 //@   requires [C04] PACE(dsc)
 //@   modifies gIn, gInN, gOutN, gClosed, gBatch
-//@   ensures [*] gBatch <= dsc.opts.Limit.Quantity && gOutN == old(gOutN) + gBatch
-//@   ensures [*] !result ==> gBatch == dsc.opts.Limit.Quantity
+//@   ensures [* C04 C12] gBatch <= dsc.opts.Limit.Quantity && gOutN == old(gOutN) + gBatch
+//@   ensures [* C04 C12] !result ==> gBatch == dsc.opts.Limit.Quantity
 //@   ensures [C12] gInN == gOutN && (result <==> gClosed)
 //@   loop 0
 //@     invariant [*] WF(dsc)
-//@     invariant [*] gBatch == $i && gOutN == old(gOutN) + gBatch
+//@     invariant [* C04 C12] gBatch == $i && gOutN == old(gOutN) + gBatch
 //@     invariant [C12] gInN == gOutN && !gClosed
 
 //@ func (*Discipline).transfer
@@ -118,8 +118,8 @@ package limit
 //@   requires [C12] gInN == gOutN && !gClosed
 //@   requires [C04] PACE(dsc)
 //@   modifies gIn, gInN, gOutN, gClosed, gBatch, gClock
-//@   ensures [*] gBatch <= dsc.opts.Limit.Quantity && gOutN == old(gOutN) + gBatch
-//@   ensures [*] !result1 ==> gBatch == dsc.opts.Limit.Quantity && result0 >= 0
+//@   ensures [* C04 C12] gBatch <= dsc.opts.Limit.Quantity && gOutN == old(gOutN) + gBatch
+//@   ensures [* C04 C12] !result1 ==> gBatch == dsc.opts.Limit.Quantity && result0 >= 0
 //@   ensures [C04] !result1 ==> gClock - result0 >= old(gClock) && gClock >= old(gClock)
 //@   ensures [C12] gInN == gOutN && (result1 <==> gClosed)
 
@@ -130,7 +130,7 @@ package limit
 //@   requires [C12] gBatch == dsc.opts.Limit.Quantity
 //@   requires [C04] gClock - duration >= gT0 + gK * dsc.opts.Limit.Interval
 //@   modifies gClock, gK, gBatch
-//@   ensures [*] gK == old(gK) + 1 && gBatch == 0
+//@   ensures [* C04 C12] gK == old(gK) + 1 && gBatch == 0
 //@   ensures [C04] gClock >= gT0 + gK * dsc.opts.Limit.Interval
 
 //@ func (*Discipline).loop
